@@ -8,7 +8,15 @@
     mixing integers and reals, no rank ≥ 2 object array); otherwise the model says `.unmodelled`;
   * `mixedNum v = false` — the reference result is not a regular nest of numbers mixing integers
     and reals (numpy re-packs such a result as one float64 array: known finding mixed-numeric-level);
-  * `Res.isErr (implJoin a b) = false` — numpy does not raise while re-packing the joined members.
+  * `Res.isErr (implJoin a b) = false` — numpy does not raise while re-packing the joined members
+    (np.concatenate with different inner dimensions, or `numpy.asarray(r, dtype=object)` on member
+    arrays that agree on leading dimensions only; witness `join_raises_witness`);
+  * `matchDom x = true` — Match / Find-by-kg_equal: no reals (np.isclose on floats is not modelled),
+    no dictionaries, object lists shorter than 128 (above, kg_equal tries np.array_equal first);
+  * `findDom es b = true` — Find in a list: a rank-1 numeric array searched for any atom
+    (`np.where(a == b)`, reals included), or members and `b` inside `matchDom`.
+  The reference leaves a character paired with a string undefined (`charStrClash`); klongpy identifies
+  0ca with "a" there (witness `match_charstr_witness`).
 -/
 import Klong.Model.C01Ext1
 namespace Klong.C01.Ext1
@@ -16,10 +24,6 @@ open Klong Klong.C01
 
 def Res.isErr : Res → Bool
   | .err => true
-  | _ => false
-
-def Res.isOk : Res → Bool
-  | .ok _ => true
   | _ => false
 
 /-! ## monads -/
@@ -214,18 +218,12 @@ theorem mapM_pyIndex (es : List Val) (is : List Nat) :
   | nil => rfl
   | cons i r ih => simp only [List.map_cons, List.mapM_cons, pyIndex_nat, ih]
 
-theorem natList_nil {vs : List Val} {ps : List Nat} (h : natList vs = some ps) (hne : ps.isEmpty = false) :
-    ∃ x r, vs = x :: r := by
-  cases vs with
-  | nil => simp [natList] at h; subst h; simp at hne
-  | cons x r => exact ⟨x, r, rfl⟩
-
 theorem indexSeq_correct (j : Bool) (a : Val) (es : List Val) (b v : Val)
     (h : (match b with
       | .int i => if i < 0 then none else es[i.toNat]?
       | .list ixs =>
         match natList ixs with
-        | some is => if is.isEmpty then none else (is.mapM fun i => es[i]?).bind (reseq j)
+        | some is => (is.mapM fun i => es[i]?).bind (reseq j)
         | none => none
       | _ => none) = some v)
     (hm : mixedNum v = false) : implIndexSeq j a es b = .ok v := by
@@ -239,14 +237,18 @@ theorem indexSeq_correct (j : Bool) (a : Val) (es : List Val) (b v : Val)
       rw [implIndexSeq, e, pyIndex_nat, h]; rfl
   | list ixs =>
     simp only at h
-    cases hp : natList ixs with
-    | none => simp [hp] at h
-    | some is =>
-      simp only [hp] at h
-      split at h
-      · simp at h
-      · rename_i hne
-        obtain ⟨x, r, rfl⟩ := natList_nil hp (by simpa using hne)
+    cases ixs with
+    | nil =>
+      -- the empty index list: [] / ""
+      simp only [natList, List.mapM_nil] at h
+      cases j with
+      | true => simp [reseq, joinChars] at h; subst h; simp [implIndexSeq]
+      | false => simp [reseq] at h; subst h; simp [implIndexSeq]
+    | cons x r =>
+      cases hp : natList (x :: r) with
+      | none => simp [hp] at h
+      | some is =>
+        simp only [hp] at h
         simp only [implIndexSeq, intList_of_natList hp, mapM_pyIndex]
         cases hr : (is.mapM fun i => es[i]?) with
         | none => simp [hr] at h
@@ -261,8 +263,8 @@ theorem indexSeq_correct (j : Bool) (a : Val) (es : List Val) (b v : Val)
   | _ => simp at h
 
 
-/-- **index_correct**: for a list or string `a` and an in-range non-negative index / non-empty
-    list of such indices, Python / numpy indexing returns the reference's element(s); excluded:
+/-- **index_correct**: for a list or string `a` and an in-range non-negative index / a list
+    (possibly empty) of such indices, Python / numpy indexing returns the reference's element(s); excluded:
     results that numpy re-packs as one float array (`mixedNum v`) -/
 theorem index_correct (a b v : Val) (h : refDyad "@" a b = some v) (hs : notStored a = false)
     (hm : mixedNum v = false) : implIndex a b = .ok v := by
@@ -433,12 +435,12 @@ theorem matchesFrom_filter (sub : List Nat) : ∀ (rest : List Nat) (j : Nat),
   | nil =>
     intro j
     simp only [matchesFrom, List.length_nil, Nat.zero_add, List.range_one]
-    by_cases h : isPrefix sub [] = true <;> simp [h, List.filter_cons]
+    by_cases h : isPrefix sub [] = true <;> simp [h]
   | cons c t ih =>
     intro j
     simp only [matchesFrom, List.length_cons]
     rw [List.range_succ_eq_map, List.filter_cons]
-    simp only [List.drop_zero, List.filter_map, List.map_map]
+    simp only [List.drop_zero, List.filter_map]
     rw [ih (j + 1)]
     have hq : ((fun i => isPrefix sub (List.drop i (c :: t))) ∘ Nat.succ)
         = fun i => isPrefix sub (List.drop i t) := by
@@ -460,7 +462,7 @@ theorem finditer_correct (s sub : List Nat) :
     (finditer (s.length + 2) s sub 0).map natVal = refFindSub s sub := by
   rw [finditer_eq s sub _ 0 (by omega) (by omega), List.drop_zero, matchesFrom_filter]
   unfold refFindSub
-  simp only [Nat.add_zero, List.map_id', List.map_map]
+  simp only [Nat.add_zero, List.map_id']
   congr 1
   · apply List.filter_congr
     intro i hi
@@ -956,5 +958,80 @@ theorem find_list_correct (es : List Val) (b v : Val) (h : refDyad "?" (.list es
     have hall : ∀ x ∈ es, numEq x b = vmatch x b := fun x hx => numEq_vmatch x b (hnum x hx) hl
     cases b <;> first | (exact (hnd _ rfl).elim) |
       (simp only [hc, Bool.false_eq_true, if_false, npWhereEq, refFindElem, npWhereEq_go _ es 0 hall]; rfl)
+
+/-! ## witnesses: what the code does where the reference is silent or differs (all `by decide`) -/
+
+/-- the model returns exactly `v` -/
+def _root_.Klong.C01.Res.is (r : Res) (v : Val) : Bool :=
+  match r with
+  | .ok w => w == v
+  | _ => false
+
+private def i (n : Int) : Val := .int n
+private def half : Val := .real 0x3FE0000000000000      -- 0.5
+
+/-- negative indices count from the end (the reference leaves them undefined) -/
+theorem index_negative_witness :
+    (implIndex (.list [i 1, i 2, i 3]) (i (-1))).is (i 3) = true ∧
+    (implIndex (.str [97, 98, 99]) (.list [i 0, i (-1)])).is (.str [97, 99]) = true ∧
+    Res.isErr (implIndex (.list [i 1, i 2, i 3]) (i (-4))) = true ∧
+    (refIndex (.list [i 1, i 2, i 3]) (i (-1))).isNone = true := by decide
+
+/-- an empty index list yields an empty list / string; a non-integer atom index returns `a` itself -/
+theorem index_degenerate_witness :
+    (implIndex (.str [97, 98]) (.list [])).is (.str []) = true ∧
+    (implIndex (.list [i 1, i 2]) (.sym [97])).is (.list [i 1, i 2]) = true := by decide
+
+/-- deviation (known finding mixed-numeric-level): [1 "a" 0.5]@[0 2] is re-packed as a float array -/
+theorem index_mixed_witness :
+    (match implIndex (.list [i 1, .str [97], half]) (.list [i 0, i 2]) with
+     | .ok (.list [.real _, .real _]) => true | _ => false) = true ∧
+    (match refIndex (.list [i 1, .str [97], half]) (.list [i 0, i 2]) with
+     | some (.list [.int 1, .real _]) => true | _ => false) = true := by decide
+
+/-- deviation (same finding): 1,0.5 is [1.0 0.5] -/
+theorem join_mixed_witness :
+    (match implJoin (i 1) half with | .ok (.list [.real _, .real _]) => true | _ => false) = true ∧
+    (match refJoin (i 1) half with | some (.list [.int 1, .real _]) => true | _ => false) = true := by decide
+
+/-- deviation: numpy raises while re-packing [[1 2]],[[[3 4] [5 6]]] (members agree on the leading
+    dimension only) and in np.concatenate for rank-3 operands with different middle dimensions;
+    the reference appends -/
+theorem join_raises_witness :
+    Res.isErr (implJoin (.list [.list [i 1, i 2]]) (.list [.list [.list [i 3, i 4], .list [i 5, i 6]]])) = true ∧
+    (refJoin (.list [.list [i 1, i 2]]) (.list [.list [.list [i 3, i 4], .list [i 5, i 6]]])).isSome = true ∧
+    Res.isErr (implJoin (.list [.list [.list [i 1, i 2], .list [i 3, i 4], .list [i 5, i 6]]])
+      (.list [.list [.list [i 1, i 2]]])) = true := by decide
+
+/-- klongpy identifies a character with the one-character string (KGChar is a str) -/
+theorem match_charstr_witness :
+    (implMatch (.chr 97) (.str [97])).is (i 1) = true ∧ vmatch (.chr 97) (.str [97]) = false ∧
+    (implFind (.list [.chr 97, .chr 98]) (.str [97])).is (.list [i 0]) = true := by decide
+
+/-- Python slicing semantics of np.array_split outside the reference's domain -/
+theorem cut_outside_witness :
+    (implCut (i (-1)) (.list [i 1, i 2, i 3, i 4])).is (.list [.list [i 1, i 2, i 3], .list [i 4]]) = true ∧
+    (implCut (.list [i 3, i 1]) (.list [i 1, i 2, i 3, i 4])).is
+      (.list [.list [i 1, i 2, i 3], .list [], .list [i 2, i 3, i 4]]) = true ∧
+    (implCut (i 0) (.list [])).is (.list [.list []]) = true ∧
+    (implCut (i 0) (.str [])).is (.list [.str []]) = true := by decide
+
+/-- non-vacuity: the manual's examples -/
+theorem examples_witness :
+    (implCut (.list [i 2, i 3, i 5]) (.str [97, 98, 99, 100, 101, 102])).is
+      (.list [.str [97, 98], .str [99], .str [100, 101], .str [102]]) = true ∧
+    (implCut (.list [i 1, i 1]) (.list [i 1, i 2])).is (.list [.list [i 1], .list [], .list [i 2]]) = true ∧
+    (implJoin (.chr 97) (.str [98, 99])).is (.str [97, 98, 99]) = true ∧
+    (implJoin (.list [.list [i 1, i 2, i 3]]) (i 4)).is (.list [.list [i 1, i 2, i 3], i 4]) = true ∧
+    (implFind (.str [120, 121, 121, 121, 121, 122]) (.str [121, 121])).is (.list [i 1, i 2, i 3]) = true ∧
+    (implFind (.str []) (.str [])).is (.list [i 0]) = true ∧
+    (implFind (.list [i 1, i 2, i 3, i 1, i 2, i 1]) (i 1)).is (.list [i 0, i 3, i 5]) = true ∧
+    (implFind (.list [i 1, .list [i 2], i 3]) (.list [i 2])).is (.list [i 1]) = true ∧
+    (implMatch (.list [i 1, .list [i 2], i 3]) (.list [i 1, .list [i 4], i 3])).is (i 0) = true ∧
+    (implMatch (i 100000) (i 100001)).is (i 0) = true ∧
+    (implMonad "!" (i (-3))).is (.list []) = true ∧
+    (implMonad "~" (.str [97, 98])).is (i 0) = true ∧
+    (implMonad "~" (.list [i 0, .list [i 1, i 0]])).is (.list [i 1, .list [i 0, i 1]]) = true ∧
+    (implMonad "#" (.sym [97, 98])).is (i 2) = true := by decide
 
 end Klong.C01.Ext1
